@@ -515,6 +515,18 @@ void var_opt_union<T, A>::mark_moving_gadget_coercer(var_opt_sketch<T, A>& sk) c
   uint32_t result_r = 0;
   size_t next_r_pos = result_k; // = (result_k+1)-1, to fill R region from back to front
 
+  // consistency checks first, so that nothing has been allocated or constructed when they throw
+  const size_t final_idx = gadget_.get_num_samples();
+  const uint32_t native_r = final_idx > gadget_.h_ ? static_cast<uint32_t>(final_idx - gadget_.h_) : 0;
+  if (gadget_.h_ + native_r != result_k) throw std::logic_error("H + R counts must equal k");
+  double transferred_weight = 0;
+  for (size_t idx = 0; idx < gadget_.h_; ++idx) {
+    if (gadget_.marks_[idx]) transferred_weight += gadget_.weights_[idx];
+  }
+  if (std::abs(transferred_weight - outer_tau_numer_) > 1e-10) {
+    throw std::logic_error("unexpected mismatch in transferred weight");
+  }
+
   double* wts = AllocDouble(allocator_).allocate(result_k + 1);
   T* data     = A(allocator_).allocate(result_k + 1);
     
@@ -523,7 +535,6 @@ void var_opt_union<T, A>::mark_moving_gadget_coercer(var_opt_sketch<T, A>& sk) c
   // pseudo-exact case in which case there are no items natively in R, only marked items in H
   // that will be moved into R as part of the coercion process.
   // Addedndum (Jan 2020): Cleanup at end of method assumes R count is 0
-  const size_t final_idx = gadget_.get_num_samples();
   for (size_t idx = gadget_.h_ + 1; idx <= final_idx; ++idx) {
     new (&data[next_r_pos]) T(gadget_.data_[idx]);
     wts[next_r_pos]  = gadget_.weights_[idx];
@@ -531,14 +542,11 @@ void var_opt_union<T, A>::mark_moving_gadget_coercer(var_opt_sketch<T, A>& sk) c
     --next_r_pos;
   }
   
-  double transferred_weight = 0;
-
   // insert H region items
   for (size_t idx = 0; idx < gadget_.h_; ++idx) {
     if (gadget_.marks_[idx]) {
       new (&data[next_r_pos]) T(gadget_.data_[idx]);
       wts[next_r_pos] = -1.0;
-      transferred_weight += gadget_.weights_[idx];
       ++result_r;
       --next_r_pos;
     } else {
@@ -546,11 +554,6 @@ void var_opt_union<T, A>::mark_moving_gadget_coercer(var_opt_sketch<T, A>& sk) c
       wts[result_h] = gadget_.weights_[idx];
       ++result_h;
     }
-  }
-
-  if (result_h + result_r != result_k) throw std::logic_error("H + R counts must equal k");
-  if (std::abs(transferred_weight - outer_tau_numer_) > 1e-10) {
-    throw std::logic_error("unexpected mismatch in transferred weight");
   }
 
   const double result_r_weight = gadget_.total_wt_r_ + transferred_weight;
